@@ -13,9 +13,58 @@ def signature(case, step):
     return None
 
 
+def stability(res, cases):
+    """the list stays fixed while the hand runs: hands of the in-hand harness during which a bystander (seated, never joined)
+    leaves the table; the hand's entries must denote the same players before and after (Hand_spec.entries_stable)"""
+    from ..flow import explore, confirm
+    from .handbase import unit as hunit
+    n = 50 if res.tier == "quick" else 1000
+    c1, b1 = explore(res, "hand", "Hand_run", n, res.seed + 17, "stab", shard=12 if res.tier == "quick" else 120)
+    bad = [(c, code, step) for (c, code, step) in b1 if code == 9]
+    # a DEALT-IN player leaving mid-hand is the recorded finding F9; anything else (a bystander leaving, no departure at all) is not
+    from .. import core
+    f9 = [f for f in core.known_findings("C02") if f.get("signature") == "c02_sig_participant_left_mid_hand"]
+
+    def is_f9(c, step):
+        st = c.get("steps") or []
+        return step < len(st) and st[step]["call"]["action"] == "leave" and st[step]["call"]["why"] == "participant"
+    if f9 and any(is_f9(c, step) for (c, code, step) in bad):
+        line = "%s (%s)" % (f9[0]["what"], f9[0]["id"])
+        if line not in res.known:
+            res.known.append(line)
+    if f9:
+        bad = [(c, code, step) for (c, code, step) in bad if not is_f9(c, step)]
+    if bad:
+        bad = [(c, code, step) for (c, code, step) in confirm(res, "hand", "Hand_run", bad, unit=hunit) if code == 9]
+    leaves = sum(1 for c in c1 for s in c.get("steps") or [] if s["call"]["action"] == "leave")
+    res.coverage["stability_histories"] = len(c1)
+    res.coverage["bystander_departures_mid_hand"] = leaves
+    for c, code, step in bad[:3]:
+        steps = c.get("steps") or []
+        res.violation("the hand's entries no longer denote the same players after a bystander left mid-hand",
+                      {"replay_kind": "hand", "replay_case": hunit(c), "failing_step": step, "steps_up_to_failure": steps[max(0, step - 1): step + 1]})
+
+
 def run(res, replay=None):
-    return run_open(res, (2, 3), signature, CL, replay=replay)
+    return run_open(res, (2, 3), signature, CL, replay=replay, extra=None if replay else stability,
+                    extra_assumptions=["stability while a hand runs is exercised for departures of players who are NOT dealt in; a dealt-in player leaving "
+                                       "mid-hand is not explored (DESIGN.md 9)"])
 
 
 def replay(res, path):
+    import json
+    data = json.load(open(path))
+    if data.get("replay_kind") == "hand":
+        from ..flow import explore
+        tmp = path + ".case.json"
+        json.dump([data["replay_case"]], open(tmp, "w"))
+        from ..flow import standard_flow  # noqa: F401
+        from .. import core
+        core.build_all()
+        c1, b1 = explore(res, "hand", "Hand_run", 0, res.seed, "replay", replay=tmp)
+        for c, code, step in b1:
+            if code == 9:
+                res.violation("the hand's entries no longer denote the same players after a bystander left mid-hand", {"replay_kind": "hand", "replay_case": data["replay_case"], "failing_step": step})
+        res.coverage.update({"evaluations": len(c1), "distinct": len(c1), "distinct_nontrivial": len(c1), "rule": "replay of one in-hand history"})
+        return res.finish("proof")
     return replay_open(res, path, run)
